@@ -200,12 +200,19 @@ class Run:
         from . import findings
         wall = time.time() - self.t0
         new_violations = []
+        known_by_id: dict = {}
         for v in self.violations:
             k = findings.match_open(self.prop, v)
             if k:
-                self.known.append(k)
+                fid = k.split(" ", 1)[0]
+                e = known_by_id.setdefault(fid, {"text": k, "n": 0, "obs": set()})
+                e["n"] += v.get("count") or 1
+                e["obs"].update(v.get("obligations", []))
             else:
                 new_violations.append(v)
+        for fid, e in sorted(known_by_id.items()):
+            what = e["text"].split(": ", 1)[1] if ": " in e["text"] else e["text"]
+            self.known.append(f"{fid} obligations={','.join(sorted(e['obs']))} failing_inputs_this_run={e['n']}: {what}")
         level = P.PROPS[self.prop]["level"]
         cov = {
             "obligations": self.obligations,
